@@ -68,9 +68,23 @@ def parse_result(r):
             'frames': int(m.group(5)), 'log': [x for x in m.group(6).split(';') if x]}
 
 
+def flat_syl(t):
+    """a symbol list merged from symbol lists IS the flat list of the parts (that is what merge_to_symbol_list is for): the model
+    is given the flat term, the implementation the merges in the order written"""
+    while True:
+        m = re.search(r'\(syl((?: \([a-z]+ [^()]*\))*) \(syl((?: \([a-z]+ [^()]*\))+)\)', t)
+        if not m:
+            return t
+        t = t[:m.start()] + '(syl' + m.group(1) + m.group(2) + t[m.end():]
+
+
+def flat_syl_case(c):
+    return c[:5] + [flat_syl(x) if isinstance(x, str) and x.count('(syl') > 1 else x for x in c[5:]]
+
+
 def run(cases, tag, drv_ok=True):
     impl = vlib.run_impl(cases, tag, per_case_s=5.0)
-    model = vlib.run_model(cases, tag) if drv_ok else {}
+    model = vlib.run_model([flat_syl_case(c) for c in cases], tag) if drv_ok else {}
     rows = []
     for c in cases:
         rows.append((c, impl.get(c[1]), model.get(c[1]), skip_reason(c)))
